@@ -172,33 +172,40 @@ int flush_pubsub_msgs(void *data, const char *key, void *value) {
     ps_priv_t *mm = NULL;
 
     const bool stopping_mod = key == NULL;
+    /*
+     * Actually tell msgs ONLY if we are not stopping the module,
+     * ie: we are stopping looping on the context, and module is running.
+     * Else, just free them.
+     */
+    const bool tell = !stopping_mod && m_mod_is(mod, M_MOD_RUNNING);
     
     m_queue_t *flushed = m_queue_new(mem_dtor);
     if (!flushed) {
         M_WARN("Failed to create flushing queue.\n");
+    } else if (tell && m_queue_len(mod->batch.events) > 0) {
+        /* Events still being batched are older than any message in the pipe: they go first */
+        m_queue_t *batched = mod->batch.events;
+        mod->batch.events = flushed;
+        flushed = batched;
     }
 
     while (mod->pubsub_fd[0] != -1 &&
         read(mod->pubsub_fd[0], &mm, sizeof(ps_priv_t *)) == sizeof(ps_priv_t *)) {
-        /*
-         * Actually tell msg ONLY if we are not stopping the module,
-         * ie: we are stopping looping on the context.
-         * Else, just free msg.
-         */
-        bool fired_yet = false;
-        if (!stopping_mod && mm->sub && mm->sub->flags & M_SRC_ONESHOT) {
+        
+        bool discard = !tell || !flushed;
+        if (!discard && mm->sub && mm->sub->flags & M_SRC_ONESHOT) {
             /* Same as in the receive loop: a oneshot subscription fires only once and is then removed */
             if (mm->sub->flags & M_SRC_ZOMBIE) {
-                fired_yet = true;
-            } else if (m_mod_is(mod, M_MOD_RUNNING)) {
+                discard = true;
+            } else {
                 mm->sub->flags |= M_SRC_ZOMBIE;
                 m_map_remove(mod->subscriptions, mm->sub->ps_src.topic);
             }
         }
-        if (!stopping_mod && !fired_yet && m_mod_is(mod, M_MOD_RUNNING)) {
+        if (!discard) {
             M_DEBUG("Flushing enqueued pubsub message for module '%s'.\n", mod->name);
             evt_priv_t *msg = new_evt(mm->sub);
-            if (msg && flushed) {
+            if (msg) {
                 msg->evt.ps_evt = &mm->msg;
                 /* Same as any other event (see push_evt()): carry subscription's userdata, and a timestamp */
                 msg->evt.userdata = mm->sub ? mm->sub->userptr : NULL;
